@@ -133,6 +133,34 @@ func (hostile) Generate(r *core.PRNG, tier string, idx int64) any {
 				sc.Origin = "targeted"
 			}
 		}
+		if r.Chance(1, 5) {
+			// header flags of whole packets: transport_error_indicator, no payload, payload_unit_start
+			// - preferably on the last packet of a PID or of the stream
+			lastOf := map[uint16]int{}
+			for i, mt := range b.Meta {
+				lastOf[mt.PID] = i
+			}
+			for n := r.Range(1, 3); n > 0; n-- {
+				i := r.Intn(len(pk))
+				switch r.Intn(3) {
+				case 0:
+					i = len(pk) - 1
+				case 1:
+					i = lastOf[b.Meta[r.Intn(len(b.Meta))].PID]
+				}
+				switch r.Pick(3, 1, 1) {
+				case 0:
+					pk[i][1] |= 0x80
+				case 1:
+					pk[i][3] &^= 0x10
+				default:
+					pk[i][1] ^= 0x40
+				}
+			}
+			if sc.Origin == "mutated" {
+				sc.Origin = "targeted"
+			}
+		}
 		k := eff - 188
 		sc.Input = reframe(pk, k)
 		if r.Chance(1, 4) {
